@@ -448,7 +448,7 @@ WellFormed(d) ==
 C10a(g, o, g2) == WellFormed(o.db2) /\ \A k \in DOMAIN o.tr : WellFormed(o.tr[k].db)
 C10b(g, o, g2) == (o.e.k = "Start") => o.err = ABSENT
 \* after a crash nothing fails internally
-C10c(g, o, g2) == (g.crashed /\ {o.e.m.mood, o.e.m.phase, o.e.m.body, o.e.m.id} \cap BadMoods = {}) => o.err \in {ABSENT, "crash"}
+C10c(g, o, g2) == (g.crashed /\ {o.e.m.mood, o.e.m.phase, o.e.m.body, o.e.m.id, o.e.m.cv} \cap BadMoods = {}) => o.err \in {ABSENT, "crash"}
 
 (***************************************************************************)
 (* C12  expiry never removes a channel that is active or has a subscriber  *)
@@ -539,16 +539,23 @@ C15c(g, o, g2) ==   \* the status row counts the subscribed connections
        /\ o.udb2.cur[1].conns = Cardinality({x \in Conns : g2.gc[x].held})
 
 InBlur(started, t) == started % Blur = 0 /\ started <= t /\ t < started + Blur
+\* After a kill inside a command the arrivals the observer knows (answered commands) are not all the
+\* arrivals the store knows, and a record may be written by the step that dies before the row it
+\* describes is gone: there the clause keeps what does not depend on them -- a whole number of
+\* intervals, not in the future.
+BlurOnly(started, t) == started % Blur = 0 /\ started <= t
 C16a(g, o, g2) ==
   (UsageOn /\ Blur > 0) =>
     \A x \in DOMAIN NewRows(o.udb.unp, o.udb2.unp) :
-       \E r \in GoneNp(o) : r.app = x.app /\ ArrOfNp(g, o, r) # {}
-                            /\ InBlur(x.started, FirstTime(ArrOfNp(g, o, r)))
+       IF g2.crashed THEN BlurOnly(x.started, o.now)
+       ELSE \E r \in GoneNp(o) : r.app = x.app /\ ArrOfNp(g, o, r) # {}
+                                  /\ InBlur(x.started, FirstTime(ArrOfNp(g, o, r)))
 C16b(g, o, g2) ==
   (UsageOn /\ Blur > 0) =>
     \A x \in DOMAIN NewRows(o.udb.umb, o.udb2.umb) :
-       \E r \in GoneMb(o) : r.app = x.app
-          /\ InBlur(x.started, IF ArrOfMb(g, o, r) = {} THEN o.now ELSE FirstTime(ArrOfMb(g, o, r)))
+       IF g2.crashed THEN BlurOnly(x.started, o.now)
+       ELSE \E r \in GoneMb(o) : r.app = x.app
+              /\ InBlur(x.started, IF ArrOfMb(g, o, r) = {} THEN o.now ELSE FirstTime(ArrOfMb(g, o, r)))
 C16c(g, o, g2) ==
   (UsageOn /\ Blur > 0) =>
     \A x \in DOMAIN NewRows(o.udb.ucv, o.udb2.ucv) : InBlur(x.t, o.now)
@@ -581,7 +588,7 @@ C17e(g, o, g2) ==   \* a malformed / out-of-order command: one error, no effect
      /\ o.err = ABSENT
 C17f(g, o, g2) ==   \* no handler fails internally (known finding F2 apart); values SQLite cannot
                     \* bind are not "well-formed commands with string-valued fields"
-  (o.e.k \in {"Cmd", "Connect", "Drop"} /\ {o.e.m.mood, o.e.m.phase, o.e.m.body, o.e.m.id} \cap BadMoods = {}) => o.err = ABSENT
+  (o.e.k \in {"Cmd", "Connect", "Drop"} /\ {o.e.m.mood, o.e.m.phase, o.e.m.body, o.e.m.id, o.e.m.cv} \cap BadMoods = {}) => o.err = ABSENT
 
 (***************************************************************************)
 (* C18  (single-run part) list answers with exactly the live nameplates    *)
